@@ -1,8 +1,8 @@
 SPECIFICATION MCSpec
 CONSTANTS
   SetupIds = {1}
-  RegIds = {1,2}
-  FileIds = {1,2}
+  RegIds = {1,2,3}
+  FileIds = {1,2,3}
   CliIds = {1,2}
   SrvIds = {1,2}
   TrackObs = FALSE
